@@ -18,7 +18,8 @@ PROP = "C01"
 THEOREMS = [
     "C01_number_sound", "C01_number_complete", "C01_lexer_total", "C01_total_outcome",
     "C01_error_position_partial", "C01_error_position_refuted", "C01_rejection_origin", "C01_lexer_rejection_spec",
-    "C01_lex_error_functional", "C01_lexes_or_lex_error", "C01_lexical_rejection_spec", "C01_render_total",
+    "C01_lex_error_functional", "C01_lexes_or_lex_error", "C01_lexical_rejection_spec",
+    "C01_type_blamed_token", "C01_value_blamed_token", "C01_blamed_token_of_tokens", "C01_blamed_unique", "C01_render_total",
     "C01_type_sound", "C01_type_complete", "C01_value_sound", "C01_value_complete",
     "C01_value_production_sound", "C01_value_production_complete",
     "C01_exec_sound", "C01_exec_complete", "C01_exec_tokens_sound", "C01_exec_tokens_complete",
